@@ -57,6 +57,13 @@ HISTORIES = {
                    ("change", "main.oal", [(R(0, 0, 0, 0), "let label = str;\n"), (R(2, 17, 2, 18), "label"), (R(1, 8, 1, 11), "int")])],
         "probe": ("main.oal", {"line": 2, "character": 18}),
     },
+    "open-an-import-already-read-from-disk": {
+        "disk": {"main.oal": 'use "m.oal";\nres / on get -> <t>;\n', "m.oal": "let t = {};\n"},
+        "script": [("open", "main.oal", 'use "m.oal";\nres / on get -> <t>;\n'), ("sync", "main.oal"),
+                   ("open", "m.oal", "// unsaved buffer\n\nlet t = { 'k num };\n"), ("sync", "main.oal"),
+                   ("change", "m.oal", [(R(2, 19, 2, 19), "\nlet other = nope;\n")])],
+        "probe": ("main.oal", {"line": 1, "character": 18}),
+    },
     "module-error-close-and-reopen": {
         "disk": {"main.oal": 'use "m.oal";\nres / on get -> <t>;\n', "m.oal": "let t = {};\n"},
         "script": [("open", "main.oal", 'use "m.oal";\nres / on get -> <t>;\n'), ("open", "m.oal", "let t = {;\n"), ("sync", "main.oal"),
